@@ -12,6 +12,7 @@ p-th root enter only through the stated hypothesis (e.g. `C.sqrt t * C.sqrt t = 
   gmean xs none = (∑ xᵢ)/n,  gmean xs (some w) = (∑ xᵢ wᵢ)/(∑ wᵢ),  gmom xs ws k = gmean ((xᵢ - gmean xs ws)^k) ws.
 -/
 import MysticVerif.Proofs.Measures
+import MysticVerif.Proofs.Trimmed
 import Mathlib.Tactic.NormNum
 
 set_option linter.unusedSectionVars false
@@ -315,6 +316,48 @@ theorem impose_collapse_spec (C : Consts K) (pairs : List (Int × Int)) (xs ws :
   show gmean (imposeMean C _ _ (some _)) (some _) = _
   rw [impose_mean_mean C _ _ _ hv, mean_eq C xs (some ws) ⟨hl, hs⟩]
 
+/-- **impose_collapse / exactly the designated weights are zeroed** (l.1790-1796): when the groups built by
+`tools.connected` are in range, list every member once, do not contain their own key (`GroupOK`) and have pairwise no
+node in common (true for every acyclic pair selection in which no pair joins two groups that both already exist),
+then for every group: the key is the ONE survivor and carries the group's weight, every other member has weight
+exactly `0` and is moved onto the key's position, and every weight outside all groups is unchanged. -/
+theorem impose_collapse_survivor_spec (C : Consts K) (pairs : List (Int × Int)) (xs ws : List K)
+    (hl : xs.length = ws.length)
+    (hok : ∀ g ∈ collapseGroups ws.length pairs, GroupOK ws.length g)
+    (hnd : ∀ g ∈ collapseGroups ws.length pairs, g.2.Nodup)
+    (hdis : (collapseGroups ws.length pairs).Pairwise fun a b => ∀ t ∈ gnodes a, t ∉ gnodes b) :
+    (∀ g ∈ collapseGroups ws.length pairs,
+      (imposeCollapse C pairs xs ws).2.getD g.1 0 = ws.getD g.1 0 + (g.2.map (ws.getD · 0)).sum ∧
+      ∀ k ∈ g.2, (imposeCollapse C pairs xs ws).2.getD k 0 = 0 ∧
+        (imposeCollapse C pairs xs ws).1[k]? = (imposeCollapse C pairs xs ws).1[g.1]?) ∧
+    (∀ t, (∀ g ∈ collapseGroups ws.length pairs, t ∉ gnodes g) →
+      (imposeCollapse C pairs xs ws).2.getD t 0 = ws.getD t 0) := by
+  have hs := collapse_groups_spec (collapseGroups ws.length pairs) xs ws hl hok hnd hdis
+  have hlen := collapse_groups_total (collapseGroups ws.length pairs) xs ws hl hok
+  refine ⟨?_, ?_⟩
+  · intro g hg
+    have h := hs g hg
+    refine ⟨h.1, ?_⟩
+    intro k hk
+    refine ⟨(h.2.2 k hk).1, ?_⟩
+    have hk' : k < ((collapseGroups ws.length pairs).foldl collapseGroup (xs, ws)).1.length := by
+      rw [hlen.2.2]; exact ((hok g hg).2 k hk).1
+    have hg' : g.1 < ((collapseGroups ws.length pairs).foldl collapseGroup (xs, ws)).1.length := by
+      rw [hlen.2.2]; exact (hok g hg).1
+    have e := (h.2.2 k hk).2.trans h.2.1.symm
+    simp only [List.getD_eq_getElem?_getD, List.getElem?_eq_getElem hk', List.getElem?_eq_getElem hg',
+      Option.getD_some] at e
+    simp only [imposeCollapse, imposeMean, List.getElem?_map, List.getElem?_eq_getElem hk',
+      List.getElem?_eq_getElem hg', Option.map_some, e]
+  · intro t ht
+    exact (collapse_groups_untouched (collapseGroups ws.length pairs) xs ws hl hok hnd t ht).1
+
+/-- non-vacuity: the groups of a chain and a star written with negative indices in both slots -/
+example : collapseGroups 6 [(0, -1), (5, 2), (3, -2)] = [(0, [5, 2]), (3, [4])] := by decide
+example : (collapseGroups 6 [(0, -1), (5, 2), (3, -2)]).Pairwise fun a b => ∀ t ∈ gnodes a, t ∉ gnodes b := by
+  rw [show collapseGroups 6 [(0, -1), (5, 2), (3, -2)] = [(0, [5, 2]), (3, [4])] from by decide]
+  simp [gnodes]
+
 /-- non-vacuity: a chain and a star (with a negative index) give `GroupOK` groups -/
 example : collapseGroups 5 [(0, 1), (1, 2), (3, -1)] = [(0, [1, 2]), (3, [4])] := by decide
 example : ∀ g ∈ collapseGroups 5 [(0, 1), (1, 2), (3, -1)], GroupOK 5 g := by
@@ -453,7 +496,7 @@ theorem almostEqual_def (x y : List K) (tol rel : K) :
         forall_eq_or_imp, absR_eq, id, decide_eq_true_eq] at this ⊢
       rw [this]
 
-/-! ## median (extension; mad / trimmed variants: see the note at the end) -/
+/-! ## median (extension; mad: see the note at the end) -/
 
 /-- **median is shift-equivariant** (l.1491; `medianSel` = the one or two selected order statistics,
 non-empty e.g. for non-negative weights with a positive total). -/
@@ -473,11 +516,144 @@ example : medianSel [(3 : ℚ), 1, 2, 5] (some [1, 1, 2, 1]) = [2, 3] := by
 example : medianSel [(3 : ℚ), 1, 2] none = [2] := by
   norm_num [medianSel, sortPairs, insertBy, pairsOf, cumsumFrom, lsum]
 
+/-! ## trimmed / winsorised variants: `_sort`, `_k`, tmean, tvariance, tstd and their imposers (l.1480, l.1549-1697)
+
+`T : TConsts K` carries `ndarray.round(15)`, the literal `.01` and `isfinite`: every statement holds for ALL choices.
+`sortedX xs ws` are the sorted samples, `trimW T xs ws klo khi clip` the trimmed (`clip = false`) or winsorised
+(`clip = true`) weights `_k` gives to them (`klo`, `khi` in percent; a number `k` is `klo = khi = k`).
+The hypothesis `(trimW ..).sum ≠ 0` is the docstring's "if all samples are excluded, will return nan". -/
+
+/-- **_sort** (l.1480): the (sample, weight) pairs are permuted, and the samples are in non-decreasing order. -/
+theorem sort_def (xs : List K) (ws : Option (List K)) :
+    (sortedOf xs ws).Perm (pairsOf xs ws) ∧ (sortedOf xs ws).Pairwise (fun a b => a.1 ≤ b.1) :=
+  ⟨sortPairs_perm _, sortPairs_sorted _⟩
+
+/-- **the trimmed weights depend only on the ORDER of the samples and on the weights**: a shift of all samples, and
+a scaling of all samples by a positive factor, leave the weights `_k` attaches to the sorted samples unchanged
+(and move the sorted samples along). -/
+theorem trim_weights_order_only (T : TConsts K) (xs : List K) (ws : Option (List K)) (klo khi : K) (clip : Bool)
+    (c s : K) (hs : 0 < s) :
+    trimW T (xs.map (· + c)) ws klo khi clip = trimW T xs ws klo khi clip ∧
+    sortedX (xs.map (· + c)) ws = (sortedX xs ws).map (· + c) ∧
+    trimW T (xs.map (· * s)) ws klo khi clip = trimW T xs ws klo khi clip ∧
+    sortedX (xs.map (· * s)) ws = (sortedX xs ws).map (· * s) ∧
+    (trimW T xs ws klo khi clip).length = (sortedX xs ws).length :=
+  ⟨trimW_shift T c xs ws klo khi clip, sortedX_shift c xs ws, trimW_scale T s hs xs ws klo khi clip,
+    sortedX_scale s hs xs ws, trimW_length T xs ws klo khi clip⟩
+
+/-- **tmean** (l.1599) is the weighted mean of the sorted samples under the trimmed weights. -/
+theorem tmean_def (T : TConsts K) (xs : List K) (ws : Option (List K)) (klo khi : K) (clip : Bool) :
+    tmean T xs ws klo khi clip =
+      wsum (sortedX xs ws) (trimW T xs ws klo khi clip) / (trimW T xs ws klo khi clip).sum :=
+  tmean_eq T xs ws klo khi clip
+
+/-- **tvariance / tstd** (l.1615, l.1632): the weighted variance `∑ w'ᵢ (xᵢ - m)² / ∑ w'ᵢ` of the sorted samples
+under the trimmed weights `w'`, about the trimmed mean `m` OF THE SAME trimmed weights; `tstd` is its root. -/
+theorem tvariance_def (C : Consts K) (T : TConsts K) (xs : List K) (ws : Option (List K)) (klo khi : K) (clip : Bool)
+    (h : (trimW T xs ws klo khi clip).sum ≠ 0) :
+    tvariance C T xs ws klo khi clip =
+      wsum ((sortedX xs ws).map fun x => (x - tmean T xs ws klo khi clip) ^ 2) (trimW T xs ws klo khi clip)
+        / (trimW T xs ws klo khi clip).sum ∧
+    tstd C T xs ws klo khi clip = C.sqrt (tvariance C T xs ws klo khi clip) := by
+  refine ⟨?_, rfl⟩
+  rw [tvariance_eq C T xs ws klo khi clip h, tmean_eq]
+  rfl
+
+/-- **_k, tmean, tvariance at the default cut `k = 0`** (strictly positive weights or none, trimming or winsorising,
+any `round` that keeps the sign of its argument): `_k` returns the weights unchanged, `tmean` is the textbook weighted
+mean and `tvariance` the textbook weighted variance of the samples AS GIVEN (sorting does not matter). -/
+theorem trimmed_k0_def (C : Consts K) (T : TConsts K) (hr : ∀ x : K, 0 < T.rnd x ↔ 0 < x) (xs : List K)
+    (ws : Option (List K)) (h : PosValid xs ws) (clip : Bool) :
+    trimW T xs ws 0 0 clip = (sortedOf xs ws).map (·.2) ∧
+    tmean T xs ws 0 0 clip = gmean xs ws ∧
+    tvariance C T xs ws 0 0 clip = gmom xs ws 2 :=
+  ⟨trimW_k0 T hr xs ws h clip, tmean_k0_eq T hr xs ws h clip, tvariance_k0_eq C T hr xs ws h clip⟩
+
+/-- `_k(weights, 0)` on strictly positive weights is the identity (l.1549-1596 with `lo = 0`, `hi = len(w)-1`). -/
+theorem k_zero_cut (T : TConsts K) (hr : ∀ x : K, 0 < T.rnd x ↔ 0 < x) (ws : List K) (hpos : ∀ x ∈ ws, 0 < x)
+    (hne : ws ≠ []) (clip : Bool) : kTrim T ws 0 0 clip false = ws :=
+  kTrim_zero T hr ws hpos hne clip
+
+example : PosValid [(3 : ℚ), 1, 2, 5] (some [1, 1, 2, 4]) := by
+  refine ⟨rfl, by simp, ?_⟩
+  intro x hx; simp at hx; rcases hx with rfl | rfl | rfl <;> norm_num
+
+/-- **impose_tmean** (l.1648): the result has the requested trimmed mean, and the trimmed variance is kept. -/
+theorem impose_tmean_spec (C : Consts K) (T : TConsts K) (m : K) (xs : List K) (ws : Option (List K)) (klo khi : K)
+    (clip : Bool) (h : (trimW T xs ws klo khi clip).sum ≠ 0) :
+    tmean T (imposeTmean T m xs ws klo khi clip) ws klo khi clip = m ∧
+    tvariance C T (imposeTmean T m xs ws klo khi clip) ws klo khi clip = tvariance C T xs ws klo khi clip := by
+  unfold imposeTmean
+  have hv := trim_valid T xs ws klo khi clip h
+  have hw := trimW_shift T (m - tmean T xs ws klo khi clip) xs ws klo khi clip
+  constructor
+  · rw [tmean_eq, hw, sortedX_shift, gmean_map_add_const _ _ _ hv, ← tmean_eq]; ring
+  · rw [tvariance_eq C T _ ws klo khi clip (by rw [hw]; exact h), tvariance_eq C T xs ws klo khi clip h, hw,
+      sortedX_shift, gmom_map_add_const _ _ _ _ hv]
+
+/-- **impose_tvariance** (l.1663): for a non-degenerate input (trimmed variance ≠ 0) and a target `v` for which the
+supplied square root is a positive square root of `v / tvariance`, the result has trimmed variance `v` and the old
+trimmed mean. -/
+theorem impose_tvariance_spec (C : Consts K) (T : TConsts K) (v : K) (xs : List K) (ws : Option (List K))
+    (klo khi : K) (clip : Bool) (h : (trimW T xs ws klo khi clip).sum ≠ 0)
+    (hv : tvariance C T xs ws klo khi clip ≠ 0)
+    (hs : C.sqrt (v / tvariance C T xs ws klo khi clip) * C.sqrt (v / tvariance C T xs ws klo khi clip)
+            = v / tvariance C T xs ws klo khi clip)
+    (hpos : 0 < C.sqrt (v / tvariance C T xs ws klo khi clip)) :
+    tvariance C T (imposeTvariance C T v xs ws klo khi clip) ws klo khi clip = v ∧
+    tmean T (imposeTvariance C T v xs ws klo khi clip) ws klo khi clip = tmean T xs ws klo khi clip := by
+  unfold imposeTvariance
+  rw [if_pos ((truthy_iff _).mpr hv)]
+  have hw := trimW_scale T _ hpos xs ws klo khi clip
+  have h' : (trimW T (xs.map (· * C.sqrt (v / tvariance C T xs ws klo khi clip))) ws klo khi clip).sum ≠ 0 := by
+    rw [hw]; exact h
+  have key := impose_tmean_spec C T (tmean T xs ws klo khi clip)
+    (xs.map (· * C.sqrt (v / tvariance C T xs ws klo khi clip))) ws klo khi clip h'
+  refine ⟨?_, key.1⟩
+  rw [key.2, tvariance_eq C T _ ws klo khi clip h', hw, sortedX_scale _ hpos, gmom_map_mul_const,
+    ← tvariance_eq C T xs ws klo khi clip h, pow_two, hs]
+  field_simp
+
+/-- **impose_tstd** (l.1686): target trimmed standard deviation `s`, i.e. trimmed variance `s²`; trimmed mean kept. -/
+theorem impose_tstd_spec (C : Consts K) (T : TConsts K) (s : K) (xs : List K) (ws : Option (List K))
+    (klo khi : K) (clip : Bool) (h : (trimW T xs ws klo khi clip).sum ≠ 0)
+    (hv : tvariance C T xs ws klo khi clip ≠ 0)
+    (hs : C.sqrt (s * s / tvariance C T xs ws klo khi clip) * C.sqrt (s * s / tvariance C T xs ws klo khi clip)
+            = s * s / tvariance C T xs ws klo khi clip)
+    (hpos : 0 < C.sqrt (s * s / tvariance C T xs ws klo khi clip)) :
+    tvariance C T (imposeTstd C T s xs ws klo khi clip) ws klo khi clip = s * s ∧
+    tmean T (imposeTstd C T s xs ws klo khi clip) ws klo khi clip = tmean T xs ws klo khi clip :=
+  impose_tvariance_spec C T (s * s) xs ws klo khi clip h hv hs hpos
+
+/-- **impose_tvariance, degenerate input** (l.1679-1680): zero trimmed variance returns `nan`s (excluded by the
+property). -/
+theorem impose_tvariance_degenerate (C : Consts K) (T : TConsts K) (v : K) (xs : List K) (ws : Option (List K))
+    (klo khi : K) (clip : Bool) (hv : tvariance C T xs ws klo khi clip = 0) :
+    imposeTvariance C T v xs ws klo khi clip = List.replicate xs.length C.nan := by
+  unfold imposeTvariance
+  rw [if_neg ((truthy_false_iff _).mpr hv)]
+
+/-- non-vacuity: rationals with `round = id`, `.01 = 1/100`. Trimming 25% from each tail of four unit weights keeps
+the two middle samples; winsorising weighted samples moves the tail mass onto the boundary samples; a tuple `k`
+that cuts inside a sample keeps the fraction of its weight inside the cut. -/
+def TQ : TConsts ℚ := { rnd := id, c01 := 1 / 100, fin := fun _ => true }
+def CQ : Consts ℚ := { inf := 0, nan := 0, sqrt := id, root := fun _ x => x }
+example : sortedX [3, 1, 2, (5 : ℚ)] (some [1, 1, 2, 4]) = [1, 2, 3, 5] := by decide +kernel
+example : trimW TQ [3, 1, 2, 5] none 25 25 false = [0, 1, 1, 0] := by decide +kernel
+example : trimW TQ [3, 1, 2, 5] (some [1, 1, 2, 4]) 25 25 true = [0, 3, 1, 4] := by decide +kernel
+example : trimW TQ [3, 1, 2, 5] (some [1, 1, 2, 4]) 10 30 false = [1 / 5, 2, 1, 8 / 5] := by decide +kernel
+example : (trimW TQ [3, 1, 2, 5] (some [1, 1, 2, 4]) 10 30 false).sum ≠ 0 := by decide +kernel
+example : tmean TQ [3, 1, 2, 5] none 25 25 false = 5 / 2 ∧ tvariance CQ TQ [3, 1, 2, 5] none 25 25 false = 1 / 4 := by
+  decide +kernel
+example : tvariance CQ TQ [3, 1, 2, 5] (some [1, 1, 2, 4]) 10 30 false = 17 / 9 := by decide +kernel
+
 /-
 NOT PROVED (listed in DESIGN.md section 5, C18, as extensions):
-  impose_mad_spec      - `mad (imposeMad s xs ws) = s` and median kept (needs scale-equivariance of the sort for a
-                         strictly positive factor; the model `mad`, `imposeMad` exists and is in the correspondence);
-  impose_tmean_spec, impose_tvariance_spec - `_k`, `tmean`, `tvariance` are not modelled (monitor only).
+  impose_mad_spec      - `mad (imposeMad s xs ws) = s` and median kept (needs scale-equivariance of the median selection
+                         for a strictly positive factor; the model `mad`, `imposeMad` exists and is in the correspondence);
+  a closed form of `_k` for a general cut (retained mass `max 0 (min Wᵢ b - max Wᵢ₋₁ a)` of the sorted sample `i`):
+                         the model `kTrim` is the code as written and is compared bit-exactly; the closed form is what the
+                         harness monitor computes independently in exact rationals (harness/c18.py `tb_trim`).
 Also not proved: `connected`-level characterisation of `GroupOK` (acyclic pair selections give `GroupOK` groups).
 -/
 
